@@ -932,7 +932,12 @@ def tokenize(content: str, lenient: bool = False) -> tuple[list[Token], list[Any
                             # the lexer can read back. Refuse it instead of corrupting it.
                             raise LexerError(f"Number literal out of range: {matched_text}", line, column, "E005")
                     else:
-                        value = int(matched_text)
+                        try:
+                            value = int(matched_text)
+                        except ValueError as exc:
+                            # CPython refuses to convert more than 4300 digits (sys.get_int_max_str_digits):
+                            # report it as a positioned reader error instead of letting ValueError escape
+                            raise LexerError(f"Number literal too long: {matched_text[:20]}...", line, column, "E005") from exc
                     # Store raw lexeme for multi-word value reconstruction
                     raw_lexeme = matched_text
                 elif token_type == TokenType.BOOLEAN:
